@@ -336,6 +336,21 @@ fn big(t: &mut Tape) -> String {
     }
 }
 
+/// a long chain of one binary operator without any bracket (nesting depth 0, but a left-deep tree
+/// as tall as the chain is long); while KF-C04-05 is known the chain stays below 100 terms
+fn long_chain(t: &mut Tape, gates: &Gates) -> String {
+    let max = if gates.want("LONG_OPERATOR_CHAIN") { *t.pick(&[200usize, 1000, 3000, 10000, 20000]) } else { 100 };
+    let n = 2 + t.below(max);
+    let op = *t.pick(&["+", " - ", "*", " OR ", " AND ", " = ", "+ -", " MOD "]);
+    let term = *t.pick(&["1", "x", "(x)", "NOT x"]);
+    let chain = std::iter::repeat(term).take(n).collect::<Vec<_>>().join(op);
+    match t.below(3) {
+        0 => format!("PROGRAM p\nVAR\nx : INT;\nEND_VAR\nx := {};\nEND_PROGRAM\n", chain),
+        1 => format!("FUNCTION_BLOCK p\nVAR\nx : INT;\nEND_VAR\nIF {} THEN\nx := 1;\nEND_IF;\nEND_FUNCTION_BLOCK\n", chain),
+        _ => format!("FUNCTION p : INT\nVAR\nx : INT;\nEND_VAR\np := {};\nEND_FUNCTION\n", chain),
+    }
+}
+
 fn family_extreme(t: &mut Tape) -> String {
     let b = big(t);
     let b2 = big(t);
@@ -452,6 +467,7 @@ fn family_text_decl(t: &mut Tape) -> String {
 
 pub fn gen_input(t: &mut Tape, gates: &Gates) -> (String, &'static str) {
     let (s, fam) = match t.below(11) {
+        10 if t.ratio(1, 3) => (long_chain(t, gates), "long-operator-chain"),
         10 => (family_text_decl(t), "text-declarations"),
         0 => (family_bytes(t), "bytes"),
         1 | 2 => (family_soup(t), "token-soup"),
@@ -646,7 +662,7 @@ pub fn run(ctx: &Ctx) -> i32 {
                 continue;
             }
             match o.status {
-                Some(0) | Some(1) => {}
+                Some(c) if c != 101 => {} // any exit status but the panic status; death by signal is None
                 other => {
                     let known = sigs2.iter().any(|s| o.stderr.contains(&s.msg_prefix));
                     if !known {
@@ -768,7 +784,7 @@ fn fuzz_input_holds(bytes: &[u8]) -> Result<(), String> {
         Ok(s) => s.to_string(),
         Err(_) => bytes.iter().map(|&b| b as char).collect(),
     };
-    let gates = Gates::all_on();
+    let gates = Gates::with_off(crate::report::gates_off(&crate::report::load_findings(), "C04"));
     let (gen, _) = gen_input(&mut Tape::new(bytes), &gates);
     for t in [text, gen] {
         witness(&json!({"text": t}))?;
@@ -804,7 +820,7 @@ pub fn replay(ctx: &Ctx, v: &Value) -> i32 {
         let cmd = v["inputs"]["command"].as_str().unwrap_or("check");
         let o = crate::drive::run_cli(&[cmd.to_string(), p], None);
         match o.status {
-            Some(0) | Some(1) => Ok(()),
+            Some(c) if c != 101 => Ok(()),
             other => Err(format!("exit {:?}", other)),
         }
     } else {
